@@ -212,6 +212,7 @@ func main() {
 	sum := map[string]interface{}{
 		"worlds": worlds, "steps": steps, "violations": nviol, "wall_s": time.Since(start).Seconds(),
 		"stats": agg, "sigs": sigs, "samples": samples, "pools": simrt.PoolNames(),
+		"reached": reachedHex(),
 	}
 	b, _ := json.Marshal(sum)
 	out("S %s", b)
@@ -266,6 +267,7 @@ func runWorld(p *Prop, t *simrt.Tape, trace bool) (res Result) {
 	w.release()
 	res.Digest = t.Digest
 	res.Steps = w.World.Steps
+	noteReached(w.World.SiteHits)
 	res.Tape = t.Rec
 	res.Log = w.log
 	res.Sig = w.signature()
@@ -428,4 +430,28 @@ func sortedKeys(m map[string]uint64) []string {
 	}
 	sort.Strings(ks)
 	return ks
+}
+
+// reachedSites: yield / probe sites passed at least once by any world of this worker (function reach).
+var reachedSites []bool
+
+func noteReached(hits []uint32) {
+	if len(reachedSites) < len(hits) {
+		reachedSites = append(reachedSites, make([]bool, len(hits)-len(reachedSites))...)
+	}
+	for i, v := range hits {
+		if v > 0 {
+			reachedSites[i] = true
+		}
+	}
+}
+
+func reachedHex() string {
+	b := make([]byte, (len(reachedSites)+7)/8)
+	for i, r := range reachedSites {
+		if r {
+			b[i/8] |= 1 << uint(i%8)
+		}
+	}
+	return fmt.Sprintf("%x", b)
 }
